@@ -320,18 +320,28 @@ func BuildCte(query *Query, expr *sqlparser.With) error {
 	}
 	for _, cte := range expr.CTEs {
 		copy := *cte
-		query.data[copy.ID.String()] = CteEvaluation(func() (any, error) {
-			query, err := Prepare(query.data, copy.Subquery, query.options)
+		name := copy.ID.String()
+		var evaluation CteEvaluation
+		evaluation = func() (any, error) {
+			// while the CTE is being evaluated a reference to it (from its own
+			// body, directly or through another CTE) is an error, not a recursion
+			query.data[name] = CteEvaluation(func() (any, error) {
+				return nil, UNSUPPORTED_CASE.Extend(fmt.Sprintf("recursive reference to CTE %s", name))
+			})
+			subquery, err := Prepare(query.data, copy.Subquery, query.options)
 			if err != nil {
+				query.data[name] = evaluation
 				return nil, err
 			}
-			rs, err := query.execAndPostProcess()
+			rs, err := subquery.execAndPostProcess()
 			if err != nil {
+				query.data[name] = evaluation
 				return nil, err
 			}
-			query.data[copy.ID.String()] = rs
+			query.data[name] = rs
 			return rs, nil
-		})
+		}
+		query.data[name] = evaluation
 	}
 	return nil
 }
